@@ -115,7 +115,14 @@ def scenario(exe, shim, root, seed, stats):
             cmd2 = rng2.choice(['sync', 'scrub', 'fix', 'status', 'check'])
             r = a.cmd(cmd2)
             after = protected_digest(a)
+            # a refused command must not disturb the lock of the running one: a third command is refused as well
+            cmd3 = rng2.choice(['sync', 'scrub', 'fix', 'check'])
+            r3 = a.cmd(cmd3)
+            after3 = protected_digest(a)
             os.kill(first.pid, signal.SIGCONT); first.wait()
+            if r3.rc == 0 or 'already in use' not in r3.out or after3 != mid:
+                out.append(('(%s) [lock-after-refusal] after %s was refused, %s started while the first sync still holds the lock is %s (exit %d)' % (cfg, cmd2, cmd3, 'NOT refused' if (r3.rc == 0 or 'already in use' not in r3.out) else 'refused but changed content/parity files', r3.rc), r3.out[-500:]))
+                break
             if r.rc == 0 or 'already in use' not in r.out:
                 out.append(('(%s) %s started while another sync holds the lock is NOT refused (exit %d)' % (cfg, cmd2, r.rc), r.out[-500:]))
             elif after != mid:
